@@ -28,6 +28,8 @@ pub enum Route {
     ExpectGaveUp,
     /// Expect: 100-continue, the server's (non-100) answer was seen while awaiting: straight to RecvResponse
     ExpectRefused,
+    /// a body-less method turned into a body request by send_body_despite_method(), body sent
+    DespiteBody,
 }
 
 impl Route {
@@ -37,6 +39,7 @@ impl Route {
             Route::Body => "after-body",
             Route::ExpectGaveUp => "expect-gave-up",
             Route::ExpectRefused => "expect-refused",
+            Route::DespiteBody => "despite-method-body",
         }
     }
 }
@@ -49,6 +52,11 @@ pub fn recv_flow_via(route: Route, seen: &[u8]) -> Option<F<RecvResponse>> {
         Route::Plain(m) => Some(recv_flow(m)),
         Route::Body => fast_to_recv(&ReqCfg::new("POST", "http://h.test/").h("content-length", b"3")).ok(),
         Route::ExpectGaveUp => fast_to_recv(&ReqCfg::new("PUT", "http://h.test/").h("expect", b"100-continue")).ok(),
+        Route::DespiteBody => {
+            let mut cfg = ReqCfg::new(if seen.len() % 2 == 0 { "GET" } else { "DELETE" }, "http://h.test/");
+            cfg.despite = true;
+            fast_to_recv(&cfg).ok()
+        }
         Route::ExpectRefused => {
             let cfg = ReqCfg::new("POST", "http://h.test/").h("expect", b"100-continue");
             let mut f = build_flow(&cfg).ok()?.proceed();
@@ -126,10 +134,10 @@ fn head_case(rng: &mut Rng, all_prefixes: bool, redirect_focus: bool, rec: &mut 
             None => hlen,
         }
     };
-    let routes = [Route::Plain(method), Route::Body, Route::ExpectGaveUp, Route::ExpectRefused];
+    let routes = [Route::Plain(method), Route::Body, Route::ExpectGaveUp, Route::ExpectRefused, Route::DespiteBody];
     // (a) a fresh flow per prefix, arriving in the receive state by every route
     for (pi, &p) in prefixes.iter().enumerate() {
-        let mut route = routes[(pi + hlen) % 4];
+        let mut route = routes[(pi + hlen) % 5];
         if lane {
             route = Route::Plain(method);
         }
@@ -184,7 +192,7 @@ fn head_case(rng: &mut Rng, all_prefixes: bool, redirect_focus: bool, rec: &mut 
     }
     // (b) the head, and the head plus tail, on fresh flows reached by every route, through Flow, Call and the bare parser
     for (ri, end) in [hlen, stream.len(), hlen, stream.len()].into_iter().enumerate() {
-        let route = if lane { Route::Plain(method) } else { routes[(ri + nf) % 4] };
+        let route = if lane { Route::Plain(method) } else { routes[(ri + nf) % 5] };
         let mut f = match recv_flow_via(route, &stream[..decided_at.min(stream.len())]) {
             Some(f) => f,
             None => recv_flow(method),
@@ -363,7 +371,7 @@ impl Property for P {
         .map(|k| (k.to_string(), 50))
         .collect();
         v.push(("cut/*".into(), 100_000));
-        for r in ["plain", "after-body", "expect-gave-up", "expect-refused"] {
+        for r in ["plain", "after-body", "expect-gave-up", "expect-refused", "despite-method-body"] {
             v.push((format!("route/{}", r), 1000));
             v.push((format!("complete-route/{}", r), 100));
         }
